@@ -31,13 +31,15 @@ checks = {
          "TLC model checking of the listing readers + listings replayed into Repository.GetConfig through a fake git + TLC-judged CLI scenarios", "4-C15"),
  "C19": (MC, "Output!FootnotesOK (1..k in order of first citation, identical texts share, all cited, all defined) is judged by TLC on synthetic reports with random witness-sharing patterns rendered by the real TableString, and on structurally parsed tables of repositories whose names come from byte classes (quotes, backslash, TAB, LF, CR, ESC, non-UTF-8, '[n]' look-alikes, very long); JSON v1/v2 must parse and keep the key set of the plain-name twin.",
          "footnote numbering judged by TLC on rendered sharing patterns and on parsed tables of odd-name repositories", "4-C19"),
+ "C16": (MC, "Parsers.tla gives byte-level reference parsers (trees, commits, tags, cat-file headers, for-each-ref lines); ParsersMC enumerates well-formed objects from small vocabularies, every truncation and token-level corruptions, checks round-trip and header-only extraction on the specification, and exports every input with the reference result; all inputs go through the real parsers under recover().",
+         "TLC-enumerated structured inputs replayed into the real parsers and compared with TLA+ reference parsers", "4-C16"),
  "C18": (MC, "Meter.tla models worker, one ticker goroutine per Start, the lock and the ticker-identity test; TLC explores all interleavings (invariants + termination; refuted when the identity test is removed). The real meter is driven with seeded random periods/delays on a -race build, every Write is recorded and the frame sequences are judged (MeterJudge) and validated as behaviours of the model with inferred silent steps (MeterTrace). CLI: identical stdout with and without --progress, final counts = census judged by TLC.",
          "TLC model checking of the meter + TLC trace validation of timing-fuzzed real meter runs + TLC-judged CLI progress counts", "4-C18"),
 }
 pending = {
  "C13": "check under construction in this session",
  "C14": "check under construction in this session",
- "C16": "check under construction in this session", "C17": "check under construction in this session",
+ "C17": "check under construction in this session",
 
 }
 import os, sys
